@@ -1,4 +1,5 @@
 import GenjaxVerif.Lemmas.GFIWeights
+import GenjaxVerif.Lemmas.GFIStaticReq
 import GenjaxVerif.Props.GFITest
 /-!
 # C38 — derived GFI methods and request combinators agree with the primitives
@@ -22,6 +23,80 @@ theorem C38_empty_request_nochange (ds : DistSem) (p : Prog) (k : KeyPath) (t : 
 /-- … and an `Update` with the empty constraint otherwise. -/
 theorem C38_empty_request_changed (ds : DistSem) (p : Prog) (k : KeyPath) (t : Trace) (a : Val) (ch : Bool) :
     emptyRequest ds p k t a false ch = update ds p k t [] a ch := rfl
+
+/-- `StaticRequest` applies each addressed sub-request: when its entry at every address is the `Update`
+    of that address's part of one constraint, the request is `Update` of the whole constraint … -/
+theorem C38_static_request_of_updates (ds : DistSem) (b : Body) (k : KeyPath) (t : Trace) (c : CMap) (a : Val)
+    (ch : Bool) :
+    staticRequest ds (.static b) k t (fun addr => SubReq.update (c.subStatic addr)) a ch
+      = update ds (.static b) k t c a ch := by
+  have key : ∀ olds env, reqBody ds (fun addr => SubReq.update (c.subStatic addr)) b
+      { c := [], sel := .none, old := some t, key := k, args := a, changed := ch } olds env {}
+      = runBody ds .upd b { c := c, sel := .none, old := some t, key := k, args := a, changed := ch } olds env {} := by
+    intro olds env
+    have := reqBody_eq_runBody ds .upd (Or.inl rfl) { c := c, sel := .none, old := some t, key := k, args := a, changed := ch }
+      olds b env {}
+    simp only [Sel.none_subs] at this
+    rw [← this]
+    exact reqBody_congr ds _ { c := [], sel := .none, old := some t, key := k, args := a, changed := ch }
+      { c := c, sel := .none, old := some t, key := k, args := a, changed := ch } rfl rfl olds b env {}
+  simp only [staticRequest, update, run, staticRun, key]
+
+/-- … and when every entry is the `Regenerate` of that address's part of one selection, it is
+    `Regenerate` of the whole selection. -/
+theorem C38_static_request_of_regenerates (ds : DistSem) (b : Body) (k : KeyPath) (t : Trace) (sel : Sel) (a : Val) :
+    staticRequest ds (.static b) k t (fun addr => SubReq.regenerate (sel.subs addr)) a
+      = regenerate ds (.static b) k t sel a := by
+  have key : ∀ olds env, reqBody ds (fun addr => SubReq.regenerate (sel.subs addr)) b
+      { c := [], sel := .none, old := some t, key := k, args := a } olds env {}
+      = runBody ds .regen b { c := [], sel := sel, old := some t, key := k, args := a } olds env {} := by
+    intro olds env
+    have := reqBody_eq_runBody ds .regen (Or.inr rfl) { c := [], sel := sel, old := some t, key := k, args := a }
+      olds b env {}
+    simp only [CMap.subStatic_nil] at this
+    rw [← this]
+    exact reqBody_congr ds _ { c := [], sel := .none, old := some t, key := k, args := a }
+      { c := [], sel := sel, old := some t, key := k, args := a } rfl rfl olds b env {}
+  simp only [staticRequest, regenerate, run, staticRun, staticOlds_regen, key]
+
+/-- Addresses the request's dict does not mention get `EmptyRequest`; a mentioned address gets its entry. -/
+theorem C38_static_request_table (reqs : List (List String × SubReq)) (a : List String) (q : SubReq) :
+    reqTable [] a = SubReq.empty ∧ reqTable ((a, q) :: reqs) a = q ∧
+    (∀ e ∈ reqs, e.1 ≠ a) → reqTable reqs a = SubReq.empty := by
+  intro h
+  unfold reqTable
+  have : reqs.find? (fun e => e.1 = a) = none := by
+    simp only [List.find?_eq_none, decide_eq_true_eq]
+    exact h.2.2
+  rw [this]
+
+/-- A `StaticRequest` with an empty dict is `EmptyRequest` on the whole function (here: the empty
+    `Update`, see `C38_empty_request_changed`). -/
+theorem C38_static_request_empty (ds : DistSem) (b : Body) (k : KeyPath) (t : Trace) (a : Val) (ch : Bool) :
+    staticRequest ds (.static b) k t (reqTable []) a ch = update ds (.static b) k t [] a ch := by
+  rw [← C38_static_request_of_updates]
+  congr 1; funext addr
+  simp [reqTable, SubReq.empty, SubReq.update]
+
+/-- The weight of a `StaticRequest` whose entries are Updates / Regenerates is new score − old score
+    (exact densities; no switch whose index is tagged changed inside, as for `Update`). -/
+theorem C38_static_request_weight (ds : DistSem) (b : Body) (k : KeyPath) (t : Trace) (req : List String → SubReq)
+    (a : Val) (ch : Bool) (r : Res) (hmode : ∀ x, (req x).mode = .upd ∨ (req x).mode = .regen)
+    (hs : Shape (.static b) t) (hsafe : SafeBody ch b)
+    (h : staticRequest ds (.static b) k t req a ch = .ok r) : r.w = r.tr.score - t.score := by
+  simp only [staticRequest, staticRun, bind_ok, pure_ok] at h
+  obtain ⟨env, _, olds, h2, ⟨st, v⟩, h3, rfl⟩ := h
+  cases t <;> simp only [Shape] at hs
+  rename_i targs tret tsubs
+  simp [staticOlds] at h2; subst h2
+  have := reqBody_w ds req hmode b _ tsubs env {} st v [] tsubs h3 (by simp) hs (by simp) (by simp [Trace.scoreAL]) hsafe
+  simpa [Trace.score] using this
+
+/-- Only static functions accept a `StaticRequest`. -/
+theorem C38_static_request_static_only (ds : DistSem) (p : Prog) (k : KeyPath) (t : Trace) (req : List String → SubReq)
+    (a : Val) (ch : Bool) (r : Res) (h : staticRequest ds p k t req a ch = .ok r) : ∃ b, p = .static b := by
+  cases p <;> simp [staticRequest] at h
+  exact ⟨_, rfl⟩
 
 /-- `simulate` constrains nothing: its weight is 0 (so `propose`'s score is the whole score). -/
 theorem C38_simulate_weight (ds : DistSem) (p : Prog) (i : In) (r : Res) (h : run ds .sim p i = .ok r) : r.w = 0 :=
